@@ -69,6 +69,16 @@ def SchedInv(h, cl, L, fwd=True, B0=None):
                 ForAll([z], Implies(And(0 <= z, z < ln(sucL(t_))), lk(t_, at(sucL(t_), z))), patterns=[at(sucL(t_), z)]),
                 ForAll([a_, z], Implies(And(0 <= a_, a_ < ln(ancL(t_)), 0 <= z, z < ln(sucL(at(ancL(t_), a_)))), lk(t_, at(sucL(at(ancL(t_), a_)), z))), patterns=[at(sucL(at(ancL(t_), a_)), z)]))),
             patterns=[mem_i(cl, h.tid[t_])])
+    else:
+        a_ = Int('a_'); z = Int('zz')
+        # C02 as a global invariant of the calculated tasks: a calculated leaf without user-fixed dates starts no earlier than the day on which each
+        # predecessor of itself and of its ancestors ends (all of them calculated, hence final), and not before the project start
+        def lk(t, p): return And(mem_i(cl, h.tid[p]), Implies(some(h.end[p]), dayidx(tv(h.start[t])) >= dayidx(tv(h.end[p]))))
+        d['C02/starts-bounded'] = ForAll([t_], Implies(And(t_ != null, mem_i(cl, h.tid[t_]), clean(t_), ln(chL(t_)) == 0, Not(h.ms[t_])),
+            And(dayidx(tv(h.start[t_])) >= dayidx(B0),
+                ForAll([z], Implies(And(0 <= z, z < ln(preL(t_))), lk(t_, at(preL(t_), z))), patterns=[at(preL(t_), z)]),
+                ForAll([a_, z], Implies(And(0 <= a_, a_ < ln(ancL(t_)), 0 <= z, z < ln(preL(at(ancL(t_), a_)))), lk(t_, at(preL(at(ancL(t_), a_)), z))), patterns=[at(preL(at(ancL(t_), a_)), z)]))),
+            patterns=[mem_i(cl, h.tid[t_])])
     return d
 
 
@@ -426,7 +436,7 @@ def pass_unit(fwd):
                     rmemo[id(c.st)] = (c.st, pre_clauses(c.eng, c.st, c['self'], c['_task'], c['resource_usage'], c['calculated']))
                 return rmemo[id(c.st)][1][lab]
             return f
-        dummy_labels = list(_labels_pre) + ([] if fwd else ['C09/links-bounded'])
+        dummy_labels = list(_labels_pre) + (['C02/starts-bounded'] if fwd else ['C09/links-bounded'])
 
         def frame_inv(c, extra=None):
             """common part of the four loop invariants"""
@@ -536,7 +546,7 @@ def pass_unit(fwd):
                     fmemo.clear(); fmemo[id(c.st)] = (c.st, frame_inv(c))
                 return fmemo[id(c.st)][1][lab]
             return f
-        FRAME = [(l, fr(l)) for l in ['sched/done', 'sched/nonneg-est', 'sched/nonneg-spent', 'sched/C07/ordered', 'sched/C04/no-work-before-scheduling', 'ledger', 'calc-grows', 'frame-done', 'frame-rank', 'frame-uncalc', 'ledger-grows', 'frame-rank-rows', 'clean-leaves', 'summaries-cleared'] + ([] if fwd else ['sched/C09/links-bounded'])]
+        FRAME = [(l, fr(l)) for l in ['sched/done', 'sched/nonneg-est', 'sched/nonneg-spent', 'sched/C07/ordered', 'sched/C04/no-work-before-scheduling', 'ledger', 'calc-grows', 'frame-done', 'frame-rank', 'frame-uncalc', 'ledger-grows', 'frame-rank-rows', 'clean-leaves', 'summaries-cleared'] + (['sched/C02/starts-bounded'] if fwd else ['sched/C09/links-bounded'])]
         fc = {'sig': {'self': R, '_task': T, 'min_date': TIME, 'resource_usage': RU, 'calculated': IL},
               'locals': locs, 'clock': True,
               'requires': [(l, req(l)) for l in dummy_labels],
@@ -558,7 +568,7 @@ _common_post = ['in-calculated', 'calculated-grows', 'C03/ledger', 'C06/frame-ca
                 'inv/done', 'inv/nonneg-est', 'inv/nonneg-spent', 'inv/C07/ordered', 'inv/C04/no-work-before-scheduling',
                 'C07/start<=end', 'C07/summary-starts-at-earliest-child-start', 'C07/summary-ends-at-latest-child-end', 'C07/summary-carries-the-sums',
                 'C04/reserved-work-is-the-remaining-work', 'C04/defaults-filled']
-_labels_post_f = _common_post + ['C04/user-fixed-dates-returned-unchanged', 'C02/start-not-before-own-prerequisite-ends', 'C02/start-not-before-inherited-prerequisite-ends',
+_labels_post_f = _common_post + ['inv/C02/starts-bounded', 'C04/user-fixed-dates-returned-unchanged', 'C02/start-not-before-own-prerequisite-ends', 'C02/start-not-before-inherited-prerequisite-ends',
                                  'C02/start-not-before-project-start-min_start-and-clock', 'C02,C04/no-work-before-the-start-day-nor-before-today', 'C02/milestone-at-the-latest-prerequisite-end']
 _labels_post_b = _common_post + ['inv/C09/links-bounded', 'C09/ends-not-after-the-project-end', 'C09/ends-not-after-own-successor-starts', 'C09/ends-not-after-inherited-successor-starts']
 
@@ -784,7 +794,7 @@ def calc_unit(fwd):
             rng = And(i >= 0, i <= ln(RS)) if fwd else And(i >= -1, i <= ln(RS) - 1)
             return And(rng, me != R.null, fw != WB.null, ru != RU.null, clr != IL.null, ForAll([j], Implies(done_rng, mem_i(cl, h.tid[at(RS, j)])), patterns=[at(RS, j)]),
                        ForAll([j], Implies(And(0 <= j, j < ln(RS)), at(RS, j) != null), patterns=[at(RS, j)]))
-        pre_labels = [l_ for l_ in (_labels_pre + ([] if fwd else ['C09/links-bounded'])) if l_ != 'non-null']
+        pre_labels = [l_ for l_ in (_labels_pre + (['C02/starts-bounded'] if fwd else ['C09/links-bounded'])) if l_ != 'non-null']
         fp = f'for t in {cname}.roots' if fwd else 'for i in range(len(backward_roots) - 1, -1, -1)'
 
         def final(c, lab):
@@ -793,9 +803,13 @@ def calc_unit(fwd):
                     'C14/every-root-task-is-scheduled': ForAll([j], Implies(And(0 <= j, j < ln(RS)), mem_i(cl, h.tid[at(RS, j)])), patterns=[at(RS, j)]),
                     'C07,C14/every-scheduled-task-has-dates-estimate-and-spent': _SchedInv(h, cl, L)['done'],
                     'C07/every-scheduled-task-without-user-fixed-dates-below-it-starts-before-it-ends': _SchedInv(h, cl, L)['C07/ordered'],
-                    'C04/no-work-is-reserved-for-a-task-that-was-not-scheduled': _SchedInv(h, cl, L)['C04/no-work-before-scheduling']}[lab]
+                    'C04/no-work-is-reserved-for-a-task-that-was-not-scheduled': _SchedInv(h, cl, L)['C04/no-work-before-scheduling'],
+                    **({'C02/every-scheduled-leaf-without-user-fixed-dates-starts-on-or-after-the-day-its-own-and-inherited-prerequisites-end': SchedInv(h, cl, L, True, sp.bound(c.eng, c.st, me))['C02/starts-bounded']} if fwd else
+                       {'C09/every-scheduled-task-without-user-fixed-dates-ends-before-the-project-end-and-before-its-own-and-inherited-successors-start': SchedInv(h, cl, L, False, sp.bound(c.eng, c.st, me))['C09/links-bounded']})}[lab]
         FL = ['C03/the-final-ledger-respects-every-capacity', 'C14/every-root-task-is-scheduled', 'C07,C14/every-scheduled-task-has-dates-estimate-and-spent',
-              'C07/every-scheduled-task-without-user-fixed-dates-below-it-starts-before-it-ends', 'C04/no-work-is-reserved-for-a-task-that-was-not-scheduled']
+              'C07/every-scheduled-task-without-user-fixed-dates-below-it-starts-before-it-ends', 'C04/no-work-is-reserved-for-a-task-that-was-not-scheduled'] + \
+             (['C02/every-scheduled-leaf-without-user-fixed-dates-starts-on-or-after-the-day-its-own-and-inherited-prerequisites-end'] if fwd else
+              ['C09/every-scheduled-task-without-user-fixed-dates-ends-before-the-project-end-and-before-its-own-and-inherited-successors-start'])
         fc = {'sig': {'self': R, wname: WB}, 'clock': True, 'locals': {cname: WB, uname: RU, 'calculated': IL, 't': T, 'backward_roots': LT, 'i': INT},
               'requires': [('scheduler-and-wbs-non-null', lambda c: And(c['self'] != R.null, c[wname] != WB.null)),
                            ('default-estimate-non-negative', lambda c: sp.defest(c.eng, c.st, c['self']) >= 0)],
@@ -807,7 +821,7 @@ def calc_unit(fwd):
                      'WBS.clone': c_clone, f'{cls}._{cls}__prepare_tasks': c_prepare, 'fn:_ResourceUsage': c_new_usage, f'{cls}._{cls}{pname}': c_pass,
                      'prop:WBS.roots': lambda eng, st, recv, a, k, n: [(st, V(rootsL(recv.e), LT))]}
         return Engine(F, f'{cls}.calc', contracts, CLASSES, fc, plugins=[CalcPlugin()]), all_ax() + LISTT_AX + CALC_AX
-    return Unit(f'{cls}.calc', F, build, ['C03', 'C04', 'C07', 'C14'], timeout_ms=15000)
+    return Unit(f'{cls}.calc', F, build, ['C03', 'C04', 'C07', 'C14'] + (['C02'] if fwd else ['C09']), timeout_ms=15000)
 
 
 UNITS += [calc_unit(True), calc_unit(False)]
